@@ -77,9 +77,10 @@ class PCT(Policy):
     """Priority schedule with d-1 change points (Burckhardt et al.)."""
     kind = "pct"
 
-    def __init__(self, prios, change_points):
+    def __init__(self, prios, change_points, own_points=()):
         self.prio = list(prios)
         self.cps = sorted(change_points)
+        self.own = {(t, k) for t, k in own_points}   # change point when thread t reaches its own k-th step
         self.low = 0
 
     def _best(self, s):
@@ -92,6 +93,10 @@ class PCT(Policy):
     def at_step(self, s, tid):
         while self.cps and s.total_steps >= self.cps[0]:
             self.cps.pop(0)
+            self.low -= 1
+            self.prio[tid] = self.low
+        if self.own and (tid, s.steps[tid]) in self.own:
+            self.own.discard((tid, s.steps[tid]))
             self.low -= 1
             self.prio[tid] = self.low
         return self._best(s)
@@ -182,17 +187,38 @@ class Replay(Policy):
         return self.segs[self.i][0] if self.i < len(self.segs) else s.runnable()[0]
 
 
-def make_policy(p, solo_steps):
+def _hot_step(hot, f1, f2, fallback):
+    """Site-uniform sampling: pick a distinct hot site (file:line) by f1, then one of its visits by f2,
+    so that a line executed once per call weighs as much as a line inside a hot loop."""
+    if not hot:
+        return fallback
+    sites = sorted(hot)
+    visits = hot[sites[min(len(sites) - 1, int(f1 * len(sites)))]]
+    return visits[min(len(visits) - 1, int(f2 * len(visits)))]
+
+
+def make_policy(p, solo):
+    """solo: per thread {'steps': n, 'hot': {site: [own step indices]}} measured on a pristine image."""
     kind = p["kind"]
+    steps = [max(1, s.get("steps", 1)) for s in solo]
     if kind == "solo":
         return Solo()
     if kind == "sweep1":
-        k = p["k"] if "k" in p else 1 + int(p["frac"] * max(1, solo_steps[p["t"]] - 1))
-        return Sweep1(p["t"], k)
+        t = p["t"]
+        if "k" in p:
+            k = p["k"]
+        else:
+            k = 1 + int(p["frac"] * max(1, steps[t] - 1))
+            if p.get("mode") == "hot":
+                k = _hot_step(solo[t].get("hot"), p["frac"], p.get("f2", 0.0), k)
+        return Sweep1(t, k)
     if kind == "pct":
-        total = max(2, sum(solo_steps))
-        cps = p["cps"] if "cps" in p else [1 + int(f * (total - 1)) for f in p["cp_fracs"]]
-        return PCT(p["prios"], cps)
+        total = max(2, sum(steps))
+        cps = p["cps"] if "cps" in p else [1 + int(f * (total - 1)) for f in p.get("cp_fracs", [])]
+        own = list(p.get("own", []))
+        for t, f1, f2 in p.get("cp_hot", []):
+            own.append([t, _hot_step(solo[t].get("hot"), f1, f2, 1 + int(f1 * max(1, steps[t] - 1)))])
+        return PCT(p["prios"], cps, own)
     if kind == "walk":
         return Walk(p["seed"], p["p"])
     if kind == "rr":
@@ -228,6 +254,8 @@ class Scheduler:
         self.lock_blocks = 0
         self.log = [] if keep_log else None
         self.in_flight = set()
+        self.hot_files = frozenset()
+        self.hot = {}             # tid -> {site: [own step indices]} for sites in hot_files
         self.watch = {}           # site -> probe name (reach probes)
         self.watch_hits = {}      # (probe name, tid) -> count
         self.overlap_steps = 0
@@ -271,8 +299,13 @@ class Scheduler:
         self.total_steps += 1
         self.steps[tid] += 1
         self._seg_n += 1
-        site = f"{short_file(fn)}:{line}"
+        sf = short_file(fn)
+        site = f"{sf}:{line}"
         self.h.update(f"{tid}:{site};".encode())
+        if sf in self.hot_files:
+            v = self.hot.setdefault(tid, {}).setdefault(site, [])
+            if len(v) < 64:
+                v.append(self.steps[tid])
         if self.log is not None:
             self.log.append((tid, site))
         if site in self.watch:
